@@ -495,6 +495,7 @@ class Flags:
         sibling=True,
         omit_abstracts=True,
         memo_fields=True,
+        deep_standalone=True,
         listops=True,  # ListSizeBetween (with custom mutate/crossover) vs LSBWLO only
         nested_generics=True,  # list[Union[..]], list[tuple[..]]
         self_refs=True,  # Union[Self, other]
@@ -803,6 +804,20 @@ def specs(draw, fl: Flags | None = None):
             dep = ["ann", draw(st.sampled_from([["int"], ["ref", draw(st.sampled_from(abs_names))]])) if not fl.finite_choice else ["ref", draw(st.sampled_from(abs_names))], ["UserMH", "raise_if", "d0", draw(st.integers(0, 1))]]
             c["fields"] = [["d0", sib], ["d1", dep]] + fields[: max(0, fl.max_fields - 2)]
 
+    if fl.deep_standalone and fl.unions and fl.standalone_concretes and draw(st.integers(0, 3)) == 0:
+        # a chain of stand-alone productions (outside every abstract hierarchy) that needs more levels
+        # than the abstract productions do, reachable only as a member of a Union-typed field
+        n_chain = draw(st.integers(2, 3))
+        leaf_t = ["ann", ["int"], ["IntRange", 0, 1]] if not fl.class_fields_only else None
+        prev = None
+        for j in range(n_chain):
+            fields = [["f0", ["ref", prev]]] if prev else ([["f0", leaf_t]] if leaf_t else [])
+            prev = new_conc(None, fields)["name"]
+        other = ["ann", ["int"], ["IntRange", 0, 1]] if not fl.class_fields_only else ["ref", abs_names[0]]
+        alts = [["ref", prev], other]
+        if draw(st.booleans()):
+            alts.reverse()
+        new_conc(draw(st.sampled_from(abs_names)), [["f0", ["union", alts]]])
     if fl.memo_fields:
         for c in concretes:
             if c.get("style") != "plain" and draw(st.integers(0, 5)) == 0:
